@@ -51,6 +51,7 @@ type Case struct {
 	Body    vev.B       `json:"body,omitempty"`
 	Why     []string    `json:"malformed_because,omitempty"` // by construction
 	Mutated bool        `json:"mutated,omitempty"`
+	Chunked bool        `json:"chunked,omitempty"` // body sent with Transfer-Encoding: chunked: the handler sees ContentLength -1
 }
 
 const (
@@ -183,8 +184,20 @@ func evaluate(c Case) (vev.Outcome, error) {
 	for _, kv := range c.Hdr {
 		fmt.Fprintf(&raw, "%s: %s\r\n", kv[0], kv[1])
 	}
-	fmt.Fprintf(&raw, "Content-Length: %d\r\n\r\n", len(c.Body))
-	raw.WriteString(string(c.Body))
+	if c.Chunked && len(c.Body) > 0 {
+		// the same bytes without a declared length, in two chunks (after C13-s13: short cuts keyed on Content-Length)
+		raw.WriteString("Transfer-Encoding: chunked\r\n\r\n")
+		k := (len(c.Body) + 1) / 2
+		for _, part := range []string{string(c.Body[:k]), string(c.Body[k:])} {
+			if part != "" {
+				fmt.Fprintf(&raw, "%x\r\n%s\r\n", len(part), part)
+			}
+		}
+		raw.WriteString("0\r\n\r\n")
+	} else {
+		fmt.Fprintf(&raw, "Content-Length: %d\r\n\r\n", len(c.Body))
+		raw.WriteString(string(c.Body))
+	}
 	req, err := http.ReadRequest(bufio.NewReader(strings.NewReader(raw.String())))
 	if err != nil {
 		return vev.Outcome{}, nil // net/http refuses it before any handler
@@ -727,7 +740,7 @@ func genCase(rt *rapid.T) Case {
 						setHdr(&c, "Destination", rapid.SampledFrom([]string{"http://[::1", "%zz", "http://h/%zz"}).Draw(rt, "dest"))
 					default:
 						if server == "webdav" {
-							setHdr(&c, "Destination", rapid.SampledFrom([]string{"relative/path", "b"}).Draw(rt, "reldest"))
+							setHdr(&c, "Destination", rapid.SampledFrom([]string{"relative/path", "b", "http://dav.example", "http://dav.example?x", "?x=1", "#dst", "mailto:a@b", "//dav.example"}).Draw(rt, "reldest"))
 							}
 					}
 				}
@@ -807,6 +820,19 @@ func delHdr(c *Case, k string) {
 }
 
 func run(t *testing.T, rt *rapid.T, c Case, class string) {
+	if len(c.Body) > 0 && !c.Chunked {
+		if rt != nil {
+			c.Chunked = rapid.IntRange(0, 2).Draw(rt, "chunked") == 0
+		} else if os.Getenv("VERIF_REPLAY") == "" {
+			defer func() { // enumerators: every request with a body a second time without a declared length
+				c.Chunked = true
+				run(t, nil, c, class+"/chunked")
+			}()
+		}
+	}
+	if c.Chunked {
+		rec.Count("body-without-declared-length", 1)
+	}
 	rec.Case(class, c.Mutated && len(c.Body) > 0, mustJSON(c), func() any {
 		s := c
 		if len(s.Body) > 600 {
@@ -890,7 +916,7 @@ func TestHeaderMatrix(t *testing.T) {
 	fam := map[string][]string{
 		"Depth":        {"0", "1", "infinity", "2", "-1", "Infinity", "0, 1", "one", "00", "1 "},
 		"Overwrite":    {"T", "F", "t", "yes", "TF", "0", "true"},
-		"Destination":  {"/dest", "http://dav.example/dest", "http://[::1", "%zz", "http://h/%zz", "\x00DEL"},
+		"Destination":  {"/dest", "http://dav.example/dest", "http://[::1", "%zz", "http://h/%zz", "\x00DEL", "http://dav.example", "http://dav.example?x", "?x=1", "#dst", "mailto:a@b", "//dav.example", "/"},
 		"Content-Type": {"application/xml", "text/xml; charset=utf-8", "text/plain", "application/json", "text/", "; charset=utf-8", "text/calendar", "text/vcard", "text/calendar2", "TEXT/CALENDAR", "\x00DEL", "application/xml, text/plain"},
 	}
 	idx := 0
@@ -917,7 +943,7 @@ func TestHeaderMatrix(t *testing.T) {
 			}
 		}
 	}
-	rec.ExhaustiveSub("every base request x {10 Depth, 7 Overwrite, 6 Destination, 12 Content-Type} header values")
+	rec.ExhaustiveSub("every base request x {10 Depth, 7 Overwrite, 13 Destination, 12 Content-Type} header values")
 }
 
 // a catalogue of documents that are malformed by construction, one per category and position
